@@ -65,8 +65,21 @@ func genC10(r *hx.RNG, tier string) *opCase {
 		q := hx.CoefOf(r.Digits(r.Range(1, 60)))
 		k.x = oracle.Val{Form: oracle.Finite, Neg: r.Bool(), Coef: new(big.Int).Mul(q, k.y.Coef), Exp: k.y.Exp + int64(r.Range(-20, 20))}
 	}
+	if k.op == "Quo" && r.Chance(12) { // divisors that invite a shortcut: powers of ten (one mantissa word), 1, 2, 5
+		k.y = oracle.Val{Form: oracle.Finite, Neg: r.Bool(), Coef: big.NewInt([]int64{1, 1, 1, 2, 5, 25}[r.Intn(6)]), Exp: int64(r.Range(-60, 60))}
+		if r.Bool() {
+			k.y.Coef.Mul(k.y.Coef, oracle.Pow10(int64(r.Range(0, 18))))
+		}
+	}
+	if k.op == "FMA" && r.Chance(6) { // a product beyond the exponent range with a zero addend: FMA is Mul then, signs and accuracy included
+		le1 := int64(r.Range(-1000000000, 1000000000))
+		tgt := []int64{oracle.MinExp - int64(r.Range(2, 400)), oracle.MaxExp + int64(r.Range(2, 400))}[r.Intn(2)]
+		k.x = r.Finite(r.Range(1, 40), le1)
+		k.y = r.Finite(r.Range(1, 40), clampLE(tgt-le1, 0))
+		k.u = oracle.Val{Form: oracle.Zero, Neg: r.Bool()}
+	}
 	// occasionally special operands
-	if r.Chance(6) {
+	if r.Chance(12) {
 		sp := []oracle.Val{{Form: oracle.Zero}, {Form: oracle.Zero, Neg: true}, {Form: oracle.Inf}, {Form: oracle.Inf, Neg: true}}[r.Intn(4)]
 		switch r.Intn(3) {
 		case 0:
@@ -276,6 +289,9 @@ func c10Case(c *hx.Ctx, r *hx.RNG, idx int64) {
 	k.applyShape(part)
 	if r.Chance(60) {
 		k.spareCap = r.Range(1, int(k.p)/19+8)
+		if r.Chance(25) { // as after an earlier long product into the same variable: several times the length
+			k.spareCap = 6*(int(k.p)/19+1) + r.Range(4, 12)
+		}
 	}
 	l := hx.LimitsFor(c.Tier)
 	if k.costly(l) {
